@@ -71,7 +71,12 @@ Record Alg := {
    t - t' and the elementwise closeness test of add_inter; [tsep] names a set
    of times on which that test is plain equality (law [tclose_sep]; for doubles
    two distinct numbers can pass rtol=1e-15 only if they are within 4 ulp).
-   [tArgs] is the type of `args` dictionaries, [amerge a n] is {**a, **n}. *)
+   [tArgs] is what a function leaf stores about its arguments (the args given
+   at construction restricted to the parameters it declares, and that set of
+   parameters); [tRepl] is the type of replacement dictionaries handed to
+   arguments() / replace_arguments / a call; [amerge a n] is the leaf after
+   replace_arguments(n) (the entries of n the function declares, over a) and
+   [rcomb n m] is the dictionary {**n, **m}. *)
 Record TimeS (A : Alg) := {
   tT :> Type;
   tleb : tT -> tT -> bool;
@@ -80,8 +85,10 @@ Record TimeS (A : Alg) := {
   tsep : tT -> Prop;
   tclose_sep : forall a b, tsep a -> tsep b -> tclose a b = true -> a = b;
   tArgs : Type;
-  amerge : tArgs -> tArgs -> tArgs;
-  amerge_assoc : forall a m n, amerge (amerge a m) n = amerge a (amerge m n)
+  tRepl : Type;
+  amerge : tArgs -> tRepl -> tArgs;
+  rcomb : tRepl -> tRepl -> tRepl;
+  amerge_assoc : forall a m n, amerge (amerge a m) n = amerge a (rcomb m n)
 }.
 
 Section Model.
@@ -91,6 +98,7 @@ Variable T : TimeS A.          (* evaluation times and argument dictionaries *)
 Notation Cc := (C A).
 Notation Mm := (M A).
 Notation Args := (tArgs A T).
+Notation Repl := (tRepl A T).
 
 (* ---------------------------------------------------------------------- *)
 (* coefficient.pyx: InterCoefficient.  np_arrays = (tlist, poly); poly has
@@ -331,7 +339,7 @@ Definition linear_map (f : tr) (anti : bool) (e : elem) : elem :=
 
 (* Coefficient.replace_arguments(args): FunctionCoefficient gets
    {**self.args, **args}; Sum/Mul/Conj/Norm recurse; Constant and Inter return self *)
-Fixpoint creplace (n : Args) (c : coef) : coef :=
+Fixpoint creplace (n : Repl) (c : coef) : coef :=
   match c with
   | CFun f a => CFun f (amerge A T a n)
   | CInter _ | CConst _ => c
@@ -343,7 +351,7 @@ Fixpoint creplace (n : Args) (c : coef) : coef :=
 
 (* .replace_arguments(args, cache) of the five element classes (the cache only
    shares equal results; a function of unused arguments is unchanged by them) *)
-Fixpoint ereplace (n : Args) (e : elem) : elem :=
+Fixpoint ereplace (n : Repl) (e : elem) : elem :=
   match e with
   | Const q => Const q                                   (* return self *)
   | Evo q c => Evo q (creplace n c)                      (* _EvoElement(qobj, coefficient.replace_arguments(args)) *)
@@ -353,7 +361,7 @@ Fixpoint ereplace (n : Args) (e : elem) : elem :=
   end.
 
 (* the same objects evaluated under an overriding argument dictionary *)
-Fixpoint ceval_ov (n : Args) (c : coef) (t : T) : Cc :=
+Fixpoint ceval_ov (n : Repl) (c : coef) (t : T) : Cc :=
   match c with
   | CFun f a => f (amerge A T a n) t
   | CInter i => ieval i t
@@ -506,11 +514,11 @@ Fixpoint wf (e : elem) : Prop :=
   end.
 
 (* QobjEvo.arguments(n): every element gets replace_arguments(n) *)
-Definition qe_arguments (n : Args) (es : qevo) : qevo := map (ereplace n) es.
+Definition qe_arguments (n : Repl) (es : qevo) : qevo := map (ereplace n) es.
 (* the same under an optional dictionary (None: nothing replaced) *)
-Definition crep (ov : option Args) (c : coef) : coef :=
+Definition crep (ov : option Repl) (c : coef) : coef :=
   match ov with None => c | Some m => creplace m c end.
-Definition rep (ov : option Args) (es : qevo) : qevo :=
+Definition rep (ov : option Repl) (es : qevo) : qevo :=
   match ov with None => es | Some m => map (ereplace m) es end.
 
 (* ---------------------------------------------------------------------- *)
@@ -538,8 +546,8 @@ Inductive qx :=
 | XLinMap (f : tr) (a : qx)               (* a.linear_map(f), a.to(..) *)
 | XCompress (a : qx)                      (* a.compress() *)
 | XCtor (a : qx)                          (* QobjEvo(a): copy and compress *)
-| XArgs (a : qx) (n : Args)               (* QobjEvo(a, args=n), a(t, **n): copy + arguments(n) + compress *)
-| XArguments (a : qx) (n : Args)          (* b = a.copy(); b.arguments(n) *)
+| XArgs (a : qx) (n : Repl)               (* QobjEvo(a, args=n), a(t, **n): copy + arguments(n) + compress *)
+| XArguments (a : qx) (n : Repl)          (* b = a.copy(); b.arguments(n) *)
 | XCopy (a : qx).                         (* a.copy() = QobjEvo(a, compress=False); pickle.loads(pickle.dumps(a)) *)
 
 Definition read_item (p : Mm * option coef) : elem :=
@@ -582,15 +590,15 @@ Definition esum (l : list Mm) : Mm := fold_right (madd A) (m0 A) l.
 
 (* evaluation under an optional overriding argument dictionary: what
    replace_arguments must amount to *)
-Definition aov (ov : option Args) (a : Args) : Args :=
+Definition aov (ov : option Repl) (a : Args) : Args :=
   match ov with None => a | Some n => amerge A T a n end.
-Definition cev (ov : option Args) (c : coef) (t : T) : Cc :=
+Definition cev (ov : option Repl) (c : coef) (t : T) : Cc :=
   match ov with None => ceval c t | Some n => ceval_ov n c t end.
 
-Definition item_value (ov : option Args) (t : T) (p : Mm * option coef) : Mm :=
+Definition item_value (ov : option Repl) (t : T) (p : Mm * option coef) : Mm :=
   match snd p with None => fst p | Some c => mscale A (cev ov c t) (fst p) end.
 
-Fixpoint semo (ov : option Args) (x : qx) (t : T) : Mm :=
+Fixpoint semo (ov : option Repl) (x : qx) (t : T) : Mm :=
   match x with
   | XConst q => q
   | XPair q c => mscale A (cev ov c t) q
@@ -613,9 +621,9 @@ Fixpoint semo (ov : option Args) (x : qx) (t : T) : Mm :=
   | XCompress a => semo ov a t
   | XCtor a => semo ov a t
   | XArgs a n =>                     (* the inner replacement happens first: {**{**args, **n}, **m} *)
-      semo (Some (match ov with None => n | Some m => amerge A T n m end)) a t
+      semo (Some (match ov with None => n | Some m => rcomb A T n m end)) a t
   | XArguments a n =>
-      semo (Some (match ov with None => n | Some m => amerge A T n m end)) a t
+      semo (Some (match ov with None => n | Some m => rcomb A T n m end)) a t
   | XCopy a => semo ov a t
   end.
 
@@ -771,5 +779,32 @@ Definition zclose_old (an ad : Z) (a b : Z) : bool :=
   (Z.abs (a - b) * ten15 * ad <=? an * ten15 + Z.abs b * ad)%Z.
 Definition zdiff (a b : Z) : GI := ((a - b)%Z, 0%Z).
 Definition zsep (a : Z) : Prop := (Z.abs a < ten15)%Z.
-(* args dictionaries with the single key "w": None is {}, Some k is {"w": k} *)
-Definition zmerge (a n : option Z) : option Z := match n with Some _ => n | None => a end.
+(* args dictionaries: integer-coded names, integer values; the first entry of
+   a name wins (so {**a, **n} is n ++ a).  A function leaf stores its parameter
+   set (None: **kw or dict style, any name) and its current dictionary. *)
+Definition dict := list (Z * Z).
+Fixpoint lookup (k : Z) (d : dict) : option Z :=
+  match d with
+  | [] => None
+  | (k', v) :: r => if Z.eqb k k' then Some v else lookup k r
+  end.
+Definition allowed (ps : option (list Z)) (k : Z) : bool :=
+  match ps with None => true | Some l => existsb (Z.eqb k) l end.
+(* {k: args[k] for k in _f_parameters & args.keys()} (everything when the set is None) *)
+Definition dfilt (ps : option (list Z)) (n : dict) : dict :=
+  filter (fun kv => allowed ps (fst kv)) n.
+Definition dstate := (option (list Z) * dict)%type.
+(* __init__: args restricted to the declared parameters *)
+Definition dinit (ps : option (list Z)) (a0 : dict) : dstate := (ps, dfilt ps a0).
+(* replace_arguments(n): {**self._args, **filtered n} *)
+Definition dmerge (st : dstate) (n : dict) : dstate := (fst st, dfilt (fst st) n ++ snd st).
+Definition dcomb (n m : dict) : dict := m ++ n.
+(* what the function reads for parameter k (d: its default, or what kw.get(k, d) returns) *)
+Definition getd (st : dstate) (k d : Z) : Z :=
+  match lookup k (snd st) with Some v => v | None => d end.
+(* the last value given for k in a history of replacement dictionaries *)
+Fixpoint hist_last (k : Z) (hist : list dict) : option Z :=
+  match hist with
+  | [] => None
+  | n :: r => match hist_last k r with Some v => Some v | None => lookup k n end
+  end.
